@@ -441,6 +441,7 @@ def cases(tier):
         out.append(("mappable",) + mapping)
     out += pair_cases(tier)
     out += fracidx_cases(tier)
+    out += idxcoll_cases(tier)
     # templates that are built while they are still being written: every skeleton x every single position as a plain variable x a build
     # (with the other assignment) just before each of its calls
     for name in SKELETONS:
@@ -840,7 +841,90 @@ def run_fracidx(x, way, meth, mappable):
     return [("@fracidx", "")]
 
 
+# ---- collections of indices that HOLD variables ------------------------------------------------------------------------------
+# target_index takes one index or a collection of indices; a collection may hold variables (items of an array variable, scalar
+# variables, expressions) next to plain numbers.  The template accepts them (it looks for variables inside collections), so the
+# built sequence has to be the one the direct call with the numbers gives.
+IDXCOLL_KINDS = ("list", "tuple", "set")
+IDXCOLL_CONTENTS = ("items", "item+literal", "scalar+literal", "expr+item", "whole-array", "single-item")
+
+
+def idxcoll_cases(tier):
+    return [("idxcoll", k, c, m, kw) for k in IDXCOLL_KINDS for c in IDXCOLL_CONTENTS for m in (False, True) for kw in (False, True)]
+
+
+def run_idxcoll(kind, content, mappable, by_keyword):
+    from pulser import Pulse
+
+    w = World(WORLD)
+    mk = {"list": list, "tuple": tuple, "set": set}[kind]
+
+    def prog(seq, idx):
+        seq.declare_channel("l", "raman_local", initial_target="q1")
+        seq.add(Pulse.ConstantPulse(52, 1.0, 0.0, 0.0, post_phase_shift=0.5), "l")
+        if by_keyword:
+            seq.target_index(qubits=idx, channel="l")
+        else:
+            seq.target_index(idx, "l")
+        seq.add(Pulse.ConstantPulse(52, 1.0, 0.0, 0.25), "l")
+
+    with warnings.catch_warnings():
+        warnings.simplefilter("ignore")
+        qmap = {}
+        if mappable:
+            t, mapping = mappable_template(w)
+            qmap = {"qubits": mapping}
+        else:
+            t = w.fresh(apply_prefix=False)
+        a = t.declare_variable("a", size=2, dtype=int)
+        sv = t.declare_variable("s", dtype=int)
+        vals = {"a": [2, 0], "s": 2}
+        if content == "items":
+            expr, direct = mk([a[0], a[1]]), mk([2, 0])
+        elif content == "item+literal":
+            expr, direct = mk([a[1], 2]), mk([0, 2])
+        elif content == "scalar+literal":
+            expr, direct = mk([0, sv]), mk([0, 2])
+        elif content == "expr+item":
+            expr, direct = mk([sv - 2, a[0]]), mk([0, 2])
+        elif content == "single-item":
+            expr, direct = mk([a[0]]), mk([2])
+        else:  # the whole array variable, no collection around it: the control
+            expr, direct = a, [2, 0]
+        d = w.fresh(apply_prefix=False)
+        try:
+            prog(d, direct)
+            want = snapshot.snap(d, with_calls=False).key()
+        except Exception as e:  # noqa: BLE001
+            want = ("refused", type(e).__name__)
+        try:
+            prog(t, expr)
+        except Exception as e:  # noqa: BLE001
+            if want[0] == "refused":
+                return [("@idxcoll-both-refuse", "")]
+            return [(f"C08:index-collection:{content}:template-refused", f"a {kind} of indices holding variables ({content}) is refused by the template "
+                     f"({type(e).__name__}: {str(e)[:120]}) while the direct call with the numbers is accepted")]
+        used = vals  # every declared variable needs a value, used or not
+        try:
+            b = t.build(**used, **qmap)
+            got = snapshot.snap(b, with_calls=False).key()
+        except Exception as e:  # noqa: BLE001
+            got = ("refused", type(e).__name__, str(e)[:100])
+        if got[0] == "refused" and want[0] == "refused":
+            return [("@idxcoll-both-refuse", "")]
+        if got != want:
+            what = "refused" if got[0] == "refused" else ("accepted" if want[0] == "refused" else "differs")
+            return [(f"C08:index-collection:{content}:{'mappable:' if mappable else ''}build-{what}",
+                     f"target_index given a {kind} of indices holding variables ({content}{', by keyword' if by_keyword else ''}): the template accepts the "
+                     f"call, direct construction with the numbers is {'refused' if want[0] == 'refused' else 'accepted'}, the build "
+                     f"{'raises ' + got[1] + ': ' + got[2] if got[0] == 'refused' else 'gives another sequence'}")]
+    return [("@idxcoll", "")]
+
+
+
 def worker(case):
+    if case[0] == "idxcoll":
+        return run_idxcoll(*case[1:])
     if case[0] == "fracidx":
         return run_fracidx(*case[1:])
     if case[0] == "pairs":
@@ -866,7 +950,7 @@ def run(tier, seed):
             if fp.startswith("@"):
                 classes[fp] = classes.get(fp, 0) + 1
             else:
-                if c[0] in ("pairs", "fracidx"):
+                if c[0] in ("pairs", "fracidx", "idxcoll"):
                     res.add(Violation(fp, d, {"engine": "progx", "case": list(c)}, size=0))
                     continue
                 if c[0] == "progi":
@@ -875,7 +959,7 @@ def run(tier, seed):
                 res.add(Violation(fp, d, {"engine": "progx", "case": [c[0], c[1], c[2] if c[0] not in ("prog", "progm") else {str(k): v for k, v in c[2].items()}]},
                                   size=len(c[2]) if c[0] in ("prog", "progm") else 0))
     res.coverage = dict(
-        evaluations=len(cs), distinct_nontrivial=classes.get("@compared", 0) + classes.get("@mappable", 0) + classes.get("@pairs", 0) + classes.get("@fracidx", 0), exhaustive=True,
+        evaluations=len(cs), distinct_nontrivial=classes.get("@compared", 0) + classes.get("@mappable", 0) + classes.get("@pairs", 0) + classes.get("@fracidx", 0) + classes.get("@idxcoll", 0), exhaustive=True,
         outcome_classes=classes,
         rule="7 skeleton programs (pulses of every waveform class, delays, phase shifts, EOM with drift correction, DMM, index targeting, "
              "XY) x every subset of their numeric argument positions replaced by variable expressions (14 expression kinds rotating; "
@@ -899,4 +983,6 @@ def replay(payload):
         return [Violation(fp, d, payload) for fp, d in run_pairs(c[1], c[2], c[3]) if not fp.startswith("@")]
     if c[0] == "fracidx":
         return [Violation(fp, d, payload) for fp, d in run_fracidx(*c[1:]) if not fp.startswith("@")]
+    if c[0] == "idxcoll":
+        return [Violation(fp, d, payload) for fp, d in run_idxcoll(*c[1:]) if not fp.startswith("@")]
     return [Violation(fp, d, payload) for fp, d in run_mappable(c[1], tuple(c[2])) if not fp.startswith("@")]
